@@ -356,7 +356,14 @@ func (sc *SpecScope) call(x *ast.CallExpr) Val {
 	}
 	switch name {
 	case "implies":
-		return vBool(sImp(sc.boolOf(arg(0)), sc.boolOf(arg(1))))
+		// lazy: when the antecedent is literally false (e.g. a result that this return path sets
+		// to the constant false) the consequent is not evaluated, so it may mention names that are
+		// only bound on the paths where the antecedent can hold
+		ante := sc.boolOf(arg(0))
+		if ante == "false" {
+			return vBool("true")
+		}
+		return vBool(sImp(ante, sc.boolOf(arg(1))))
 	case "iff":
 		return vBool(sx("=", sc.boolOf(arg(0)), sc.boolOf(arg(1))))
 	case "ite":
